@@ -329,11 +329,16 @@ FragTableSane == done => \A k \in 1..Len(T.ftbl) : T.ftbl[k].size > 0
                                                    /\ \E j \in 1..Len(T.wb) : T.wb[j].off = T.ftbl[k].loc /\ T.wb[j].size = T.ftbl[k].size
 SameStorage(f, g) == /\ T.ino[f].start = T.ino[g].start /\ T.ino[f].fidx = T.ino[g].fidx /\ T.ino[f].foff = T.ino[g].foff
                      /\ T.ino[f].blocks = T.ino[g].blocks
-(* a flag-free file that repeats an earlier flag-free file shares its storage with some earlier file of  *)
-(* the same content (not necessarily the first: a dont_deduplicate twin in between re-registers the chunk) *)
+(* a flag-free file that repeats an earlier flag-free file adds no storage: its block run is the run of some earlier  *)
+(* file with the same blocks, its tail the fragment chunk of some earlier file with the same tail - not necessarily  *)
+(* of the same file (a dont_deduplicate twin in between re-registers the chunk, and chunks are shared between files  *)
+(* that differ elsewhere)                                                                                              *)
 Sharing == done => \A g \in 1..Len(input) :
               (input[g].flags = {} /\ Expected(g) # <<>> /\ \E f \in 1..(g - 1) : Expected(f) = Expected(g) /\ input[f].flags = {})
-              => \E h \in 1..(g - 1) : Expected(h) = Expected(g) /\ SameStorage(h, g)
+              => /\ (input[g].blocks # <<>> =>
+                       \E h \in 1..(g - 1) : input[h].blocks = input[g].blocks /\ T.ino[h].start = T.ino[g].start /\ T.ino[h].blocks = T.ino[g].blocks)
+                 /\ (T.ino[g].fidx # NoFrag =>
+                       \E h \in 1..(g - 1) : input[h].tail = input[g].tail /\ T.ino[h].fidx = T.ino[g].fidx /\ T.ino[h].foff = T.ino[g].foff)
 StoredBlocksOf(s, f) ==       \* indices into wb of the stored blocks of file f (by position walk)
   LET i == s.ino[f] IN {k \in 1..Len(s.wb) : s.wb[k].off >= i.start /\ i.blocks # <<>>}
 FlagsHonoured == done => \A f \in 1..Len(input) :
